@@ -372,7 +372,8 @@ Definition step (s : st) (e : ev) : option st :=
   | EFutexRes u j =>
       let r := un s u in
       match jw r with
-      | JWHave j' => if Nat.eqb j j' then Some (set_u s u (with_jw r JWDone)) else None
+      | JWHave j' => (* only a non-yieldable (external / tasklet) joiner sleeps on a futex *)
+          if Nat.eqb j j' && negb (isult (un s j)) then Some (set_u s u (with_jw r JWDone)) else None
       | _ => None
       end
   | ENb p inc old u handoff =>
